@@ -265,6 +265,9 @@ class CThread:
     def start(self):
         self.ctl.park(("start", self.name))
         self.part = self.ctl.spawn(self.name if self.name else "agent", lambda: self.target(*self.args, **self.kwargs))
+        # a second schedule point right after the new thread exists: under the OS scheduler it may run before its creator
+        # executes another statement
+        self.ctl.park(("started", self.name))
 
     def join(self, timeout=None):
         self.ctl.park(("join", self.part, timeout))
